@@ -29,7 +29,7 @@ CURVES = ["p192", "p224", "p256", "p384", "p521", "ed25519", "ed448", "curve2551
 WS = CURVES[:5]
 OP_KINDS = ["hash_copy", "hash_copy", "cipher", "cipher", "ec", "ec", "ec", "ecdsa", "ecdsa", "eddsa", "eddsa", "rsa", "modexp", "kdf", "shamir",
             "gc", "ecdh", "import_key", "cmac_copy", "hmac_copy", "xof", "point_ops", "generate", "dsa", "primality", "bcrypt", "export_import",
-            "poly1305", "pkcs1_v15", "hash_all", "hash_all", "mac_verify", "big_gcm"]
+            "poly1305", "pkcs1_v15", "hash_all", "hash_all", "mac_verify", "big_gcm", "strxor"]
 
 
 def dg(*xs):
@@ -271,11 +271,9 @@ class Machine(object):
                 raise Mutated("copy() is not independent of the original (%s)" % fam)
             return dg(r)
         if kind == "cipher":
-            fam = ["GCM", "CCM", "EAX", "OCB", "SIV", "ChaCha20-Poly1305", "CBC", "CTR", "CFB", "OFB", "ChaCha20", "Salsa20", "ECB"][salt % 13]
-            cfg = F.gen_cipher_cfg(Rng(seed), fam)
-            if cfg["alg"] not in ("AES", "ChaCha20", "Salsa20", "ChaCha20_Poly1305"):
-                cfg = F.gen_cipher_cfg(Rng(seed + 1), "GCM")
-                fam = "GCM"
+            fam = ["GCM", "CCM", "EAX", "OCB", "SIV", "ChaCha20-Poly1305", "CBC", "CTR", "CFB", "OFB", "ChaCha20", "Salsa20", "ECB", "ARC4",
+                   "CBC", "CTR", "EAX"][salt % 17]
+            cfg = F.gen_cipher_cfg(Rng(seed), fam)      # every block cipher of the library, not only AES
             c = F.make_cipher(cfg)
             pt = bytearray(data(seed, 16 * (1 + salt % 9)))
             psnap = bytes(pt)
@@ -319,6 +317,12 @@ class Machine(object):
                 S2 = R.copy()
                 S2 *= 3
                 live.append(S2)
+                T = (P * 1).set(R)              # native clone
+                rb = (int(R.x), int(R.y))
+                T += P
+                self._same("source of set()", rb, (int(R.x), int(R.y)))
+                if T != R + P:
+                    raise Mutated("set() did not produce an independent copy on %s" % c)
                 return dg(int(R.x), int(R.y), int(S2.x))
             return dg(int(R.x), int(R.y), int(D.x))
         if kind == "generate":
@@ -391,6 +395,14 @@ class Machine(object):
             s2 = key_agreement(static_priv=b, static_pub=a.public_key(), kdf=lambda x: x)
             if s1 != s2:
                 raise Mutated("the two parties derived different secrets on %s" % c)
+            if c not in WS:
+                # native clone of an X-only point: the copy is equal to and independent of its source
+                T = a.pointQ.copy() if salt & 1 else (a.pointQ * 1)
+                bx = int(b.pointQ.x)
+                T.set(b.pointQ)
+                T *= 3
+                if int(b.pointQ.x) != bx or T != b.pointQ * 3:
+                    raise Mutated("set() did not produce an independent copy on %s" % c)
             return dg(s1)
         if kind == "rsa":
             from Crypto.PublicKey import RSA
@@ -425,6 +437,15 @@ class Machine(object):
             self._same("modexp operands", (bb, eb, mb), (int(b), int(e), int(m)))
             if int(r) != pow(bb, eb, mb):
                 raise Mutated("modular exponentiation gave a wrong result")
+            if salt & 1:
+                # the pure-Python/ctypes back end goes through the library's own Montgomery code (monty_pow, monty_multiply)
+                from Crypto.Math._IntegerCustom import IntegerCustom
+                cb, ce, cm = IntegerCustom(bb), IntegerCustom(eb), IntegerCustom(mb)
+                r2 = pow(cb, ce, cm)
+                r3 = IntegerCustom._mult_modulo_bytes(cb, ce, cm)
+                self._same("modexp operands (custom)", (bb, eb, mb), (int(cb), int(ce), int(cm)))
+                if int(r2) != int(r) or int.from_bytes(r3, "big") != bb * eb % mb:
+                    raise Mutated("Montgomery arithmetic gave a wrong result")
             return dg(int(r))
         if kind == "kdf":
             from Crypto.Protocol.KDF import HKDF, PBKDF2, scrypt
@@ -437,8 +458,10 @@ class Machine(object):
                 r = HKDF(pw, 40 + salt, sl, [SHA256, SHA512][salt & 1], num_keys=1 + salt % 3)
                 e = HKDF(ps, 40 + salt, ss, [SHA256, SHA512][salt & 1], num_keys=1 + salt % 3)
             elif salt % 3 == 1:
-                r = PBKDF2(bytes(pw), sl, 20 + salt, count=3 + salt % 20, hmac_hash_module=[SHA256, SHA512][salt & 1])
-                e = PBKDF2(ps, ss, 20 + salt, count=3 + salt % 20, hmac_hash_module=[SHA256, SHA512][salt & 1])
+                from Crypto.Hash import MD5, SHA1, SHA224, SHA384, SHA3_256, BLAKE2b
+                hm = [SHA256, SHA512, MD5, SHA1, SHA224, SHA384, SHA3_256][(salt // 3) % 7]
+                r = PBKDF2(bytes(pw), sl, 20 + salt, count=3 + salt % 20, hmac_hash_module=hm)
+                e = PBKDF2(ps, ss, 20 + salt, count=3 + salt % 20, hmac_hash_module=hm)
             else:
                 r = scrypt(bytes(pw), bytes(sl), 16 + salt % 30, N=4, r=1 + salt % 2, p=1)
                 e = r
@@ -501,6 +524,18 @@ class Machine(object):
             if k2 != k:
                 raise Mutated("export/import under a passphrase lost the key")
             return dg(len(blob))
+        if kind == "strxor":
+            from Crypto.Util.strxor import strxor, strxor_c
+            a = bytearray(data(seed + 5, len(msg)))
+            asnap = bytes(a)
+            out = bytearray(len(msg))
+            r1 = strxor(msg, a)
+            r2 = strxor_c(msg, salt * 4 + 1)
+            strxor(memoryview(msg), bytes(a), output=out)
+            self._same("strxor operands", (snap, asnap), (bytes(msg), bytes(a)))
+            if r1 != bytes(x ^ y for x, y in zip(snap, asnap)) or bytes(out) != r1 or r2 != bytes(x ^ (salt * 4 + 1) for x in snap):
+                raise Mutated("strxor gave a wrong result")
+            return dg(r1, r2)
         if kind == "poly1305":
             from Crypto.Hash import Poly1305
             from Crypto.Cipher import AES, ChaCha20
